@@ -62,7 +62,12 @@ func NewUnpackInfo(dst string, header *tar.Header) (UnpackInfo, error) {
 	if rel == "." {
 		// The entry is the top directory of the archive ("./"), that is the
 		// destination itself, which is the caller's to choose: it may well
-		// be a symlink, and nothing below it is passed through.
+		// be a symlink, and nothing below it is passed through. Only a
+		// directory entry can stand for it: anything else would, where the
+		// destination does not exist yet, put a file or a link in its place.
+		if header.Typeflag != tar.TypeDir {
+			return UnpackInfo{}, fmt.Errorf("invalid filename %q, only a directory entry may name the destination itself", header.Name)
+		}
 		components = nil
 	}
 
